@@ -9,6 +9,7 @@ package main
 
 import (
 	"fmt"
+	"time"
 	"math/big"
 
 	"go.dedis.ch/kyber/v4"
@@ -71,6 +72,24 @@ func checkLaws(g *groups.G, a, b *big.Int, Pb, Qb, Rb []byte) []lawFail {
 		func() kyber.Point { return G.Point().Mul(G.Scalar().Mul(A(), B()), P()) })
 	chk("a(P+Q)=aP+aQ", func() kyber.Point { return G.Point().Mul(A(), G.Point().Add(P(), Q())) },
 		func() kyber.Point { return G.Point().Add(G.Point().Mul(A(), P()), G.Point().Mul(A(), Q())) })
+	// the same element in different internal representations (non-normalised results of earlier arithmetic)
+	S := func() kyber.Point { return G.Point().Add(P(), Q()) }
+	renorm := func(x kyber.Point) kyber.Point {
+		b, _ := x.MarshalBinary()
+		y := G.Point()
+		if err := y.UnmarshalBinary(b); err != nil {
+			panic("decode")
+		}
+		return y
+	}
+	chk("non-normalised doubling: (P+Q)+(Q+P)=2(P+Q)", func() kyber.Point { return G.Point().Add(S(), G.Point().Add(Q(), P())) },
+		func() kyber.Point { return G.Point().Mul(sc(big.NewInt(2)), S()) })
+	chk("representation independence: S+norm(S)=2S", func() kyber.Point { return G.Point().Add(S(), renorm(S())) },
+		func() kyber.Point { return G.Point().Mul(sc(big.NewInt(2)), S()) })
+	chk("representation independence: S-norm(S)=O", func() kyber.Point { return G.Point().Sub(S(), renorm(S())) }, O)
+	chk("representation independence: (P+Q)-Q=P", func() kyber.Point { return G.Point().Sub(S(), Q()) }, P)
+	chk("representation independence: a*S=a*norm(S)", func() kyber.Point { return G.Point().Mul(A(), S()) },
+		func() kyber.Point { return G.Point().Mul(A(), renorm(S())) })
 	chk("0*P=O", func() kyber.Point { return G.Point().Mul(G.Scalar().Zero(), P()) }, O)
 	chk("1*P=P", func() kyber.Point { return G.Point().Mul(G.Scalar().One(), P()) }, P)
 	chk("(q-1)P=-P", func() kyber.Point { return G.Point().Mul(sc(new(big.Int).Sub(g.Q, big.NewInt(1))), P()) }, func() kyber.Point { return G.Point().Neg(P()) })
@@ -127,14 +146,18 @@ func runC01(c *kc.Ctx) {
 			if c.Thorough() && i < len(es)*len(es) && i < 200 {
 				a, b = es[i%len(es)], es[(i/len(es))%len(es)]
 			}
+			dgen := c.Watch(90*time.Second, g.Name+":pick/embed/hash", g.Name+": generating input points through Pick/Embed/Hash", map[string]string{"group": g.Name, "seed": fmt.Sprint(c.Seed)}, "proof")
 			Pb, Qb, Rb := src(rng.Intn(8)), src(rng.Intn(8)), src(rng.Intn(8))
+			dgen()
 			switch rng.Intn(6) {
 			case 0:
 				Pb, _ = g.Group.Point().Null().MarshalBinary()
 			case 1:
 				Qb = Pb
 			}
+			done := c.Watch(90*time.Second, g.Name, g.Name+" laws", map[string]string{"group": g.Name, "a": kc.HexN(a), "b": kc.HexN(b), "P": kc.HexB(Pb), "Q": kc.HexB(Qb), "R": kc.HexB(Rb)}, "proof")
 			fails := checkLaws(g, a, b, Pb, Qb, Rb)
+			done()
 			c.Eval(1)
 			c.CountKind("laws:" + g.Name)
 			if a.Cmp(big.NewInt(1)) > 0 || b.Cmp(big.NewInt(1)) > 0 {
@@ -166,10 +189,14 @@ func runC01(c *kc.Ctx) {
 		rng := c.Rng.Fork("prog/" + f.model)
 		src := pointSource(f.insts[0], rng)
 		for i := 0; i < nProg; i++ {
+			dgen := c.Watch(90*time.Second, f.insts[0].Name+":pick/embed/hash", f.insts[0].Name+": generating input points through Pick/Embed/Hash", map[string]string{"group": f.insts[0].Name, "seed": fmt.Sprint(c.Seed)}, "proof")
 			p := genProg(rng.Fork(fmt.Sprint(i)), f.q, plen, src, true, true)
+			dgen()
 			line := "grp " + f.model + " " + p.String()
 			for _, g := range f.insts {
+				done := c.Watch(90*time.Second, g.Name, g.Name+" program "+p.String(), map[string]string{"group": g.Name, "program": p.String()}, "proof")
 				got, _ := runProg(g, p, false, false)
+				done()
 				pcs = append(pcs, pc{g, line, got, p})
 			}
 		}
@@ -192,8 +219,16 @@ func runC01(c *kc.Ctx) {
 		}
 		c.Disagree(x.g.Name+" "+x.line, x.got, outs[i], "")
 		c.DisChecked(1)
-		// search: evaluate the laws on the operands the program used
+		// search 1: replay the program; at every statement recompute the result from operands normalised through
+		// encode/decode. A difference means the operation's result depends on the internal representation of
+		// its operands, i.e. the group law fails on those concrete operands.
 		found := false
+		if st, a, b, got, want := findRepresentationDependence(x.g, x.p); st != "" {
+			c.Violation("law:"+x.g.Name+":representation-dependence", fmt.Sprintf("%s: `%s` gives %s on the operands as left by earlier arithmetic but %s on the same operands re-decoded from their encodings", x.g.Name, st, got, want),
+				map[string]string{"group": x.g.Name, "program": x.p.String(), "statement": st, "operand_a": a, "operand_b": b, "direct": got, "normalised": want})
+			found = true
+		}
+		// search 2: evaluate the laws on the operands the program used
 		rng := c.Rng.Fork("search/" + x.line)
 		src := pointSource(x.g, rng)
 		for t := 0; t < 40 && !found; t++ {
@@ -216,3 +251,53 @@ func runC01(c *kc.Ctx) {
 }
 
 func init() { register("C01", "proof", runC01) }
+
+// findRepresentationDependence replays p on g; returns the first statement whose result changes when its
+// point operands are first normalised through MarshalBinary/UnmarshalBinary.
+func findRepresentationDependence(g *groups.G, p prog) (stmtText, opA, opB, direct, normalised string) {
+	st := &progState{pts: map[string]kyber.Point{}, scs: map[string]kyber.Scalar{}}
+	for _, s := range p.stmts {
+		var res string
+		if s.dst[0] == 'p' && (s.op == "add" || s.op == "sub" || s.op == "neg" || s.op == "mul") {
+			res = kc.Recover(func() string {
+				norm := func(n string) kyber.Point {
+					b, _ := st.pts[n].MarshalBinary()
+					y := g.Group.Point()
+					if err := y.UnmarshalBinary(b); err != nil {
+						panic("decode")
+					}
+					return y
+				}
+				var r kyber.Point
+				switch s.op {
+				case "add":
+					r = g.Group.Point().Add(norm(s.args[0]), norm(s.args[1]))
+				case "sub":
+					r = g.Group.Point().Sub(norm(s.args[0]), norm(s.args[1]))
+				case "neg":
+					r = g.Group.Point().Neg(norm(s.args[0]))
+				case "mul":
+					r = g.Group.Point().Mul(st.scs[s.args[0]].Clone(), norm(s.args[1]))
+				}
+				return pointVal(r)
+			})
+		}
+		var a, b string
+		if res != "" && res != "panic" {
+			pa := s.args[len(s.args)-1]
+			a = pointVal(st.pts[pa])
+			if s.op == "add" || s.op == "sub" {
+				a, b = pointVal(st.pts[s.args[0]]), pointVal(st.pts[s.args[1]])
+			}
+		}
+		if kc.Recover(func() string { st.exec(g, s, false); return "" }) == "panic" {
+			return "", "", "", "", ""
+		}
+		if res != "" && res != "panic" {
+			if d := pointVal(st.pts[s.dst]); d != res {
+				return s.String(), a, b, d, res
+			}
+		}
+	}
+	return "", "", "", "", ""
+}
